@@ -20,6 +20,7 @@ META = {
     'text': 'Model: position-wise guard equivalence of the name and pointer tables of the data source, filter and output registries (=> aligned in every configuration). '
             'Implementation: every name of the universe is resolved in every enumerated configuration of the real registry code (all filter and output subsets exhaustively; data sources: all/none/each single/each pair, '
             'thread safety on and off) against recording stubs: exists iff enabled, and runs its own implementation; unknown and disabled names are unknown, including proper prefixes of enabled names.'
+            ' Look-up histories: every sequence of (registry, name) look-ups of depth 2 over all names of the three registries (depth 3 over the names shared between registries plus first/middle/last/unknown of each; thorough) in one process - what a name runs must not depend on earlier look-ups in this or another registry.'
             " Also: the real shared library preloaded behind a decoy library that defines the registries' table symbols with rotated contents (a table the library exported would be interposed).",
     'note': 'If the extractor meets a preprocessor construct it does not know, the model verdict is withheld (exhaustive:false) and only the compiled configurations decide. Trusted: gcc preprocessor.',
 }
@@ -112,6 +113,85 @@ int main(int argc, char **argv) {
     return 0;
 }
 '''
+
+
+SEQ_MAIN = r"""
+#include <stdio.h>
+#include <string.h>
+#include <stddef.h>
+#include "datasourceregistry.h"
+#include "filterregistry.h"
+#include "outputregistry.h"
+#include "configuration.h"
+const char *last_called = "";
+snoopy_configuration_t verif_cfg;
+snoopy_configuration_t *snoopy_configuration_get(void) { return &verif_cfg; }
+/* argv: tokens "d:name" / "f:name" / "o:name", looked up one after the other in ONE process and thread */
+int main(int argc, char **argv) {
+    for (int i = 1; i < argc; i++) {
+        const char *n = argv[i] + 2; char b[8]; int ex = 0;
+        last_called = "-";
+        switch (argv[i][0]) {
+        case 'd': ex = snoopy_datasourceregistry_doesNameExist(n); if (ex) snoopy_datasourceregistry_callByName(n, b, sizeof b, ""); break;
+        case 'f': ex = snoopy_filterregistry_doesNameExist(n);     if (ex) snoopy_filterregistry_callByName(n, "");               break;
+        case 'o': ex = snoopy_outputregistry_doesNameExist(n);     if (ex) snoopy_outputregistry_callByName(n, "m", "");          break;
+        }
+        printf("%d=%s\n", i, ex ? last_called : "UNKNOWN");
+        fflush(stdout);
+    }
+    return 0;
+}
+"""
+
+
+def lookup_histories(ck, repo, U, extra, root, base_lines, quick):
+    """Every sequence of look-ups (registry, name) up to the depth, in one process: what a name resolves to must not depend on what was
+    looked up before, in this or in another registry (the three registries share genericregistry.c).  Depth 2 over the whole universe of
+    names of the three registries (+ an unknown name each); depth 3 over a reduced alphabet: every name that exists in more than one
+    registry, plus first / middle / last table entry and the unknown name of each registry."""
+    d = os.path.join(root, 'seq')
+    os.makedirs(d, exist_ok=True)
+    with open(os.path.join(d, 'config.h'), 'w') as f:
+        f.write('\n'.join(base_lines) + '\n#define SNOOPY_CONF_CONFIGFILE_PATH "/x"\n#define SNOOPY_CONF_THREAD_SAFETY_ENABLED 1\n')
+        for kind in REG:
+            for n in U[kind]:
+                f.write('#define %s%s 1\n' % (REG[kind][4], n))
+    open(os.path.join(d, 'main_seq.c'), 'w').write(SEQ_MAIN)
+    exe = os.path.join(d, 'q')
+    r = sh(['gcc', '-O0', '-std=c99', '-I' + d, '-I' + os.path.join(repo, 'src'), '-I' + repo] + [os.path.join(repo, REG[k][0]) for k in REG] + [os.path.join(repo, 'src/genericregistry.c'), os.path.join(d, 'main_seq.c')] +
+           [os.path.join(root, 'stubs_%s.o' % k) for k in REG] + ['-o', exe])
+    if r.returncode:
+        ck.violation('C13:configuration_does_not_compile:all-three-registries', {'error': r.stderr.decode()[:800]})
+        return 0, 0
+    letter = {'datasource': 'd', 'filter': 'f', 'output': 'o'}
+    names = {k: U[k] + extra[k] for k in REG}
+    full = [(letter[k] + ':' + n, n) for k in REG for n in names[k]] + [(letter[k] + ':nosuch', 'UNKNOWN') for k in REG]
+    shared = set(n for k in REG for n in names[k] if sum(n in names[j] for j in REG) > 1)
+    # table order = order of the compiled table, unknown here; sorted order is as good for picking three spread entries
+    small = []
+    for k in REG:
+        pick = sorted(set([names[k][0], names[k][len(names[k]) // 2], names[k][-1]]) | (shared & set(names[k])))
+        small += [(letter[k] + ':' + n, n) for n in pick] + [(letter[k] + ':nosuch', 'UNKNOWN')]
+    seqs = [s for s in itertools.product(full, repeat=2)] + ([] if quick else [s for s in itertools.product(small, repeat=3)])
+    seqs = [(s,) for s in full] + seqs
+
+    def one(seq):
+        rr = sh([exe] + [t for t, _ in seq], timeout=30)
+        return rr.returncode, rr.stdout.decode('latin-1')
+    bad = 0
+    outcomes = set()
+    for seq, (rc, out) in zip(seqs, pmap(one, seqs)):
+        got = [l.split('=', 1)[1] for l in out.splitlines() if '=' in l]
+        want = [w for _, w in seq]
+        outcomes.add(tuple(got[-1:]))
+        if rc != 0 or got != want:
+            bad += 1
+            if bad <= 5:
+                ck.violation('C13:binding_depends_on_lookup_history:%s:runs=%s' % ('>'.join(t for t, _ in seq), ','.join(got) if rc == 0 else 'crash(rc=%d)' % rc),
+                             {'lookups_in_order': [t for t, _ in seq], 'each_ran': got, 'expected': want, 'rc': rc,
+                              'note': 'd:/f:/o: = data source / filter / output registry; one process, one thread, look-ups in this order'})
+    shutil.rmtree(d, ignore_errors=True)
+    return len(seqs), len(outcomes)
 
 
 def universe(repo):
@@ -259,6 +339,9 @@ def run(ck):
     # ---- (3) real builds: the library's own sources, selected as the Makefile.am conditionals select them, must link in every single-feature-off build
     n_real = real_builds(ck, repo, U, base_lines, q)
     evals += n_real
+    # ---- (2b) look-up histories across the three registries (they share genericregistry.c)
+    n_hist, n_hist_out = lookup_histories(ck, repo, U, extra, root, base_lines, q)
+    evals += n_hist
     # ---- another object in the same process: the real shared library (project flags, -fvisibility=hidden) is preloaded BEHIND a decoy library that
     # defines the registries' table symbols with other contents (names rotated by one).  A table the library exports would be resolved to the decoy's
     # (symbol interposition), and every name would then invoke its neighbour's implementation; tables that are the library's own are unaffected.
@@ -279,10 +362,10 @@ def run(ck):
     r2 = sh(['gcc', '-o', os.path.join(dd, 'drv'), os.path.join(dd, 'drv.c')])
     if r1.returncode or r2.returncode:
         raise RuntimeError('decoy build failed: ' + (r1.stderr + r2.stderr).decode()[:500])
-    fmt = 'F=%{filename}|C=%{cmdline}|V=%{snoopy_version}|E=%{env:DECOYVAR}|L=%{snoopy_literal:abc}|U=%{uid}'
+    fmt = 'N=[%{noop}]|F=%{filename}|C=%{cmdline}|V=%{snoopy_version}|E=%{env:DECOYVAR}|L=%{snoopy_literal:abc}|U=%{uid}'   # %{noop} first: a name the filter registry has too
     want_of = None
     for label, preload in (('alone', so['so']), ('behind_a_library_that_defines_the_table_symbols', os.path.join(dd, 'libdecoy.so') + ':' + so['so'])):
-        for chain, logged in (('only_root', True), ('exclude_uid:0', False)):
+        for chain, logged in (('only_root', True), ('exclude_uid:0', False), ('noop', True)):
             logp = os.path.join(dd, 'log-%s-%s' % (label[:6], chain[:6]))
             if os.path.exists(logp):
                 os.unlink(logp)
@@ -291,13 +374,13 @@ def run(ck):
             rr = sh([os.path.join(dd, 'drv')], env=dict(CLEAN_ENV, LD_PRELOAD=preload, VERIF_SNOOPY_INI=ini, DECOYVAR='envvalue'), timeout=60)
             got = open(logp, 'rb').read() if os.path.exists(logp) else b''
             version = re.search(r'#define PACKAGE_VERSION "([^"]*)"', open(os.path.join(so['dir'], 'inc/config.h')).read()).group(1)
-            want = (b'F=/nonexistent/bin/prog|C=prog one two|V=' + version.encode() + b'|E=envvalue|L=abc|U=0\n') if logged else b''
+            want = (b'N=[]|F=/nonexistent/bin/prog|C=prog one two|V=' + version.encode() + b'|E=envvalue|L=abc|U=0\n') if logged else b''
             n_pos += 1
             if rr.returncode != 0 or got != want:
                 ck.violation('C13:name_runs_another_implementation:%s:chain=%s' % (label, chain), {'preload': preload, 'rc': rr.returncode, 'got': got.decode('latin-1')[:300], 'want': want.decode('latin-1'), 'stderr': rr.stderr.decode('latin-1')[-300:]})
     ck.coverage(states=len(outcomes) + n_pos, real_library_builds=n_real, transitions=evals, traces_validated_against_impl=validated, evaluations=evals, distinct_nontrivial=len(outcomes),
                 rule='model: every table position; implementation: every probe name in every enumerated configuration; distinct = distinct (registry, thread safety, enabled set)',
-                model_positions_checked=n_pos, model_complete=model_ok, configurations_compiled=len(confs), samples=samples or [{'note': 'none'}])
+                lookup_histories=n_hist, lookup_history_depth=2 if q else 3, model_positions_checked=n_pos, model_complete=model_ok, configurations_compiled=len(confs), samples=samples or [{'note': 'none'}])
 
 
 def makefile_sources(repo):
